@@ -2063,11 +2063,11 @@ func main() {
 	g.fixed()
 	names := []string{"web", "api", "web.v1", "db2", "*", "*"}
 	if *tier == "thorough" {
-		g.exhaustive(3, 3, 19)
-		g.random(6000, 4, names)
+		g.exhaustive(3, 3, 29)
+		g.random(6000, 5, names)
 		g.random(600, 3, append(names, "a|b", "c++"))
-		g.malformed(1500)
-		g.store(1500)
+		g.malformed(1200)
+		g.store(1200)
 	} else {
 		g.exhaustive(2, 3, 12)
 		g.random(1200, 4, names)
